@@ -64,7 +64,9 @@ def gen(ch, prof):
                             + [mk("rogue_cfg_write", 1.0), mk("load_p"), mk("update"), mk("rogue_cfg_write")])
                 h["start"] = g.pick([0.0, 0.05, 0.3])
     env = {"lock_behaviour": g.pick(["break_stale", "never_break"]), "stick": g.pick([0.3, 0.5, 0.7, 0.9]),
-           "p_stall": g.pick([0.0, 0.0, 0.01]), "stall_max": 5.0}
+           "p_stall": g.pick([0.0, 0.0, 0.01]), "stall_max": g.pick([5.0, 5.0, 5.0, 900.0])}
+    # (stall_max 900: a live holder may be slower than the 300 s lock timeout of the waiters, which then
+    # give up with filelock.Timeout - the operation did not take place - and must not touch the marker)
     return {"kind": "comp_cluster", "n_jobs": n_jobs, "handles": handles, "creator_keeps_role": g.flip(0.2),
             "operator_heals": g.flip(0.7), "env": env, "jobs": [], "groups": []}
 
